@@ -14,7 +14,7 @@
    Statements only. *)
 From Coq Require Import String.
 From Coq Require Import ZArith QArith List Bool Arith Permutation Lia.
-From BS Require Import Core.Base Core.GridQ Model.Aod Model.LibMoves Proofs.AodProofs Proofs.AodRoundTrip Proofs.AodSelect Proofs.AodPre Proofs.LibMovesProofs.
+From BS Require Import Core.Base Core.GridQ Model.Aod Model.LibMoves Proofs.AodProofs Proofs.AodRoundTrip Proofs.AodSelect Proofs.AodPre Proofs.AodLegs Proofs.LibMovesProofs.
 Import ListNotations.
 
 Theorem C08_no_atom_lost_or_duplicated : forall st ps st',
@@ -171,6 +171,34 @@ Example C08_example :
   /\ round_trip_ok (traps st0) (occ st0) [fwd; bwd] = true /\ round_trip_ok (traps st0) (occ st0) [fwd; swapped] = false.
 Proof. vm_compute. repeat split; reflexivity. Qed.
 
+(* ---- moves played in several legs (move_by_waypoints: pick on the first call, drop on the last, any calls in between) ---- *)
+
+(* consecutive paths glued at the waypoint where one ends and the next begins simulate EXACTLY like the sequence of legs,
+   from every state, whether the simulation succeeds or fails *)
+Theorem C08_legs_simulate_as_the_merged_path : forall qs p m, merge_legs p qs = Some m ->
+  forall st, sim_paths st (p :: qs) = sim_paths st [m].
+Proof. exact merge_legs_sound. Qed.
+
+(* hence a recognised multi-leg move is executable, leaves nothing in the tweezers, and delivers tone (i, j)'s atom *)
+Theorem C08_recognised_multi_leg_move_is_executable_and_delivers : forall T O ps, legs_transport_ok T O ps = true ->
+  exists m nx ny w0 ws st',
+    recognise_transport [m] = Some (nx, ny, w0, ws) /\
+    sim_paths (mkast T O [] [] []) ps = AOk st' /\ held st' = [] /\ xon st' = [] /\ yon st' = [] /\
+    let wn := last (w0 :: ws) w0 in
+    forall i j, (i < nx)%nat -> (j < ny)%nat ->
+      occ_find (nth i (fst wn) 0%Q, nth j (snd wn) 0%Q) (occ st') = occ_find (nth i (fst w0) 0%Q, nth j (snd w0) 0%Q) O.
+Proof. exact recognised_legs_executable. Qed.
+
+(* non-vacuity: a 2x1 selection carried over two legs via a hovering position *)
+Example C08_two_legs_example :
+  let T := [(0, 0); (10#1, 0); (20#1, 0); (30#1, 0)]%Q in
+  let O := [((0, 0)%Q, 1%nat); ((10#1, 0)%Q, 2%nat)] in
+  let leg1 := mkspath 2 1 [SWay [([0; 10#1], [0])]; SSwitch On ALL ALL; SWay [([0; 10#1], [0]); ([5#1; 15#1], [3#1])]]%Q in
+  let leg2 := mkspath 2 1 [SWay [([5#1; 15#1], [3#1]); ([20#1; 30#1], [0])]; SSwitch Off ALL ALL; SWay [([20#1; 30#1], [0])]]%Q in
+  legs_transport_ok T O [leg1; leg2] = true /\
+  show_sim (sim_paths (mkast T O [] [] []) [leg1; leg2]) = "ok held=0 occ=[1@20/1,0/1,2@30/1,0/1]"%string.
+Proof. vm_compute. split; reflexivity. Qed.
+
 (* ---- the library kernels themselves (Model/LibMoves.v: the played paths as a function of the zone's coordinates and the call's
    index lists; compared with the implementation on every enumerated call, acceptance and paths) ---- *)
 
@@ -246,3 +274,5 @@ Print Assumptions C08_cz_move_accepts_exactly_the_documented_calls.
 Print Assumptions C08_cz_move_every_accepted_call_is_executable.
 Print Assumptions C08_rearrange_accepted_strict_call_delivers.
 Print Assumptions C08_rearrange_acceptance_alone_refuted.
+Print Assumptions C08_legs_simulate_as_the_merged_path.
+Print Assumptions C08_recognised_multi_leg_move_is_executable_and_delivers.
